@@ -57,6 +57,22 @@ fn c01q_split_into_leading_separator() {
     check_split_into::<3>(";", [';', 'a', 'b']);
 }
 
+// NOTE: inputs that yield NO field (white space only, the empty input) were tried and withdrawn: each exceeded 240 s on
+// the unchanged tree, because the field is then dropped inside `split_into` and CBMC has to execute the drop glue of
+// `Location` (Rc<Code> -> Source, a recursive type); in all other cases the field ends up in `results`, which the
+// harness forgets.
+#[kani::proof]
+#[kani::unwind(8)]
+fn c01t_split_into_one_separator() {
+    check_split_into::<1>(";", [';']);
+}
+
+#[kani::proof]
+#[kani::unwind(8)]
+fn c01q_split_into_two_separators() {
+    check_split_into::<2>(";", [';', ';']);
+}
+
 #[kani::proof]
 #[kani::unwind(8)]
 fn c01t_split_into_three_fields() {
